@@ -3,14 +3,18 @@
   stateful) and the per-operation models (Model.Api).
 
     new <i> <seed>                       -> ok            instance i := random conforming state
-    mut <i> <seed> <family>              -> ok            the BMC's own state moves (family: chassis|sensors|leds|hpm|fans|all)
+    mut <i> <seed> <family>              -> ok            the BMC's own state moves (family: chassis|sensors|leds|hpm|fans|…|all;
+                                                          unavail: every pool sensor flags reading/state unavailable while it
+                                                          still holds non-zero state bytes)
     req <i> <netfn> <lun> <cmd> <hex>    -> <hex>         one IPMI request; reply = completion code :: data
     digest <i>                           -> <hash>
     dump <i>                             -> Repr of the normalised state
     spec <i> <op> <args…>                -> <digest-after> <result>     oracle: Spec.run, instance untouched
     specdump <i> <op> <args…>            -> Repr of the state the oracle expects
     model <i> <variant> <op> <args…>     -> <digest-after> <result | error tag>      Model.Api, instance untouched;
-                                            variant: letters l (LED decode as shipped), p (port state as shipped) or -
+                                            variant: letters for the operations modelled AS SHIPPED (Model.Api.Variant):
+                                            l LED decode, p port state, r LAN revision-only, b rollback status,
+                                            u sensor states while unavailable; - = all as intended
     domain <i> <op> <args…>              -> <0|1> <0|1>   arguments inside `Call.InRange`, instance inside `BmcState.Wf`
                                             (executable checks of Model/Api/Domain.lean, proved sound in Lemmas/ApiDomain.lean)
     modelreq <variant> <op> <args…>      -> <netfn> <lun> <cmd> <hex> | <error tag>  the request the model puts on the wire
@@ -100,7 +104,8 @@ def genHpm : Gen Hpm := do
   pure { version := ← pick [0, 1], capabilities := ← rndByte, timeouts := ← rndBytes 4, components := ← rndByte,
          cmdInProgress := ← pick [0, 0x31, 0x32, 0x33, 0x35], lastCc := ← pick [0, 0x80, 0x81, 0xd5, 0xff],
          estimate := ← rndOpt (rnd 101), selftest1 := ← pick [0x55, 0x56, 0x57, 0x58, 0x60],
-         selftest2 := ← rndByte, rollbackStatus := ← pick [0, 0x80, 0x81], rollbackEstimate := ← rndOpt (rnd 101) }
+         selftest2 := ← rndByte, rollbackStatus := ← (do if (← rnd 3) == 0 then pick [0, 1, 0x05, 0x80, 0x81, 0xff] else rnd 256),
+         rollbackEstimate := ← rndOpt (do if (← rnd 3) == 0 then pure 0 else rnd 101) }
 
 def lunPool : List Nat := [0, 1, 2, 3]
 def sensorPool : List Nat := [0, 1, 2, 0x7f, 0x80, 0xfe, 0xff]
@@ -139,6 +144,20 @@ def genLan : Gen (Map (List Nat)) := do
     if ← rndBool then m := m.set (lanKey ch 16) (← rndBytes 18)
   pure m
 
+/-- parameter revisions: 11h (this specification) or another present/compatible pair, per channel and parameter -/
+def genLanRev : Gen (Map Nat) := do
+  let mut m : Map Nat := {}
+  for ch in chanPool do
+    for p in [0, 3, 4, 5, 6, 12, 16, 20] do
+      if (← rnd 3) == 0 then m := m.set (lanKey ch p) (← pick [0x11, 0x10, 0x21, 0x22, 0x01, 0xf1, 0xff, 0x00])
+  pure m
+
+/-- a sensor whose update is in progress: unavailable flag set, the state bytes (stale) are not zero -/
+def genSensorUnavailable : Gen Sensor := do
+  let x ← genSensor
+  let s2 ← rndOpt (do pure (1 + (← rnd 255)))
+  pure { x with unavailable := true, states1 := some (1 + (← rnd 255)), states2 := s2 }
+
 def genAccess : Gen UserAccess := do
   pure { privilege := ← pick [0, 1, 2, 3, 4, 5, 0xf, 7], ipmiMsg := ← rndBool, linkAuth := ← rndBool,
          callbackOnly := ← rndBool, sessionLimit := ← rnd 16 }
@@ -156,7 +175,7 @@ def genState : Gen BmcState := do
   let powerKeys := fruPool.flatMap fun f => [0, 1, 2, 3].map fun t => f * 4 + t
   pure {
     device := ← genDevice, guid := ← rndBytes 16, watchdog := ← genWatchdog, chassis := ← genChassis,
-    bootParams := ← genBoot, lan := ← genLan,
+    bootParams := ← genBoot, lan := ← genLan, lanRev := ← genLanRev,
     userNames := ← genMap userPool genName, userEnabled := ← genMap userPool (pick [0, 1, 2]),
     userAccess := ← genMap accessKeys genAccess, maxUsers := ← pick [1, 10, 63], fixedNames := ← rnd 3,
     sensors := ← genMap sensorKeys genSensor,
@@ -181,7 +200,11 @@ def mutate (fam : String) (s : BmcState) : Gen BmcState := do
   if all || fam == "hpm" then s := { s with hpm := ← genHpm, pmGlobal := ← rnd 16 }
   if all || fam == "device" then s := { s with device := ← genDevice, watchdog := ← genWatchdog }
   if all || fam == "boot" then s := { s with bootParams := ← genBoot }
-  if all || fam == "lan" then s := { s with lan := ← genLan }
+  if all || fam == "lan" then s := { s with lan := ← genLan, lanRev := ← genLanRev }
+  if fam == "unavail" then
+    let mut m := s.sensors
+    for k in sensorKeys do m := m.set k (← genSensorUnavailable)
+    s := { s with sensors := m }
   if all || fam == "guid" then s := { s with guid := ← rndBytes 16 }
   if all || fam == "users" then
     let accessKeys := chanPool.flatMap fun c => userPool.map fun u => userKey c u
@@ -202,7 +225,7 @@ def mutate (fam : String) (s : BmcState) : Gen BmcState := do
 
 def normState (s : BmcState) : BmcState :=
   { s with bootParams := s.bootParams.norm, bootInvalid := s.bootInvalid.norm, bootMailbox := s.bootMailbox.norm,
-           lan := s.lan.norm, userNames := s.userNames.norm, userPasswords := s.userPasswords.norm,
+           lan := s.lan.norm, lanRev := s.lanRev.norm, userNames := s.userNames.norm, userPasswords := s.userPasswords.norm,
            userEnabled := s.userEnabled.norm, userAccess := s.userAccess.norm, sensors := s.sensors.norm,
            leds := s.leds.norm, fans := s.fans.norm, ports := s.ports.norm, power := s.power.norm,
            frus := s.frus.norm, sigClass := s.sigClass.norm, powerChannels := s.powerChannels.norm }
@@ -285,6 +308,7 @@ def showResult : Result → String
   | .pmGlobal g => s!"role={g % 2} mgmt={g / 2 % 2} payload={g / 4 % 2} fault={g / 8 % 2}"
   | .hpmStatus c cc => s!"cmd={c} cc={cc}"
   | .hpmCaps v comps => s!"ver={v} comps=" ++ natList ((List.range 8).filter fun i => bitOf comps i)
+  | .rollback st e => s!"status={st} pct={so e}"
   | .error cc => s!"cc:{cc}"
 
 /-! ### parsing calls -/
@@ -443,7 +467,7 @@ def step (st : Insts) (line : String) : Insts × String :=
   | "model" :: i :: variant :: op :: args =>
     match (pNat i).bind (st[·]?), parseCall op args with
     | some s, some c =>
-      match PyIpmi.Model.Api.runModelV (variant.contains 'l') (variant.contains 'p') c s with
+      match PyIpmi.Model.Api.runModelV (.ofLetters variant) c s with
       | (s', .ok r) => (st, digest s' ++ " " ++ showResult r)
       | (s', e) => (st, digest s' ++ " " ++ e.tag)
     | _, _ => (st, "bad-op")
@@ -451,7 +475,7 @@ def step (st : Insts) (line : String) : Insts × String :=
     -- model + modelreq + domain in one round trip, separated by " | "
     match (pNat i).bind (st[·]?), parseCall op args with
     | some s, some c =>
-      let x := PyIpmi.Model.Api.opOfV (variant.contains 'l') (variant.contains 'p') c
+      let x := PyIpmi.Model.Api.opOfV (.ofLetters variant) c
       let m := match x.run s with
         | (s', .ok r) => digest s' ++ " " ++ showResult r
         | (s', e) => digest s' ++ " " ++ e.tag
@@ -467,7 +491,7 @@ def step (st : Insts) (line : String) : Insts × String :=
   | "modelreq" :: variant :: op :: args =>
     match parseCall op args with
     | some c =>
-      match (PyIpmi.Model.Api.opOfV (variant.contains 'l') (variant.contains 'p') c).request with
+      match (PyIpmi.Model.Api.opOfV (.ofLetters variant) c).request with
       | .ok r => (st, s!"{r.netfn} {r.lun} {r.cmd} {toHex r.data}")
       | e => (st, e.tag)
     | none => (st, "bad-op")
